@@ -20,7 +20,7 @@ Definition status_code (x : job) : nat :=
   | PSettled (Ko _) => 2
   | PWaiting => 3
   | PCollapsed _ => 4
-  | PDryStop => 5
+  | PDryStop => 0
   | _ => 0
   end.
 
